@@ -152,7 +152,7 @@ def run_case(case, ctx):
     da, arr = datagen.uxda(g, spec, "n_" + centred, n, name="v")
     if case["constant"]:
         arr = np.full(arr.shape, 3, dtype=arr.dtype)
-        da = ux.UxDataArray(arr, dims=da.dims, uxgrid=g, name="v")
+        da = ux.UxDataArray(arr.copy(), dims=da.dims, uxgrid=g, name="v")
     a64 = arr.astype(float)
     lead = tuple(spec["lead"])
     want_dims = tuple(datagen.lead_dims(spec)) + ("n_edge",)
@@ -179,6 +179,9 @@ def run_case(case, ctx):
             bad("gradient_rejects_non_face", "returned", f"gradient() of node-centred data returned {type(r).__name__}")
         except (ValueError, NotImplementedError, TypeError):
             pass
+        ctx.ev("input_unchanged")
+        if datagen.modified(da, arr):
+            bad("input_unchanged", "data-modified", f"difference() changed the variable it was called on: {np.asarray(da.values).ravel()[:4]} vs {arr.ravel()[:4]}")
         return fails
 
     # face-centred
@@ -195,6 +198,10 @@ def run_case(case, ctx):
             e = int(i[-1])
             bad("difference_faces", "wrong", f"edge {e} faces {ef[e].tolist()}: got {got[tuple(i)]!r} expected {exp_diff[tuple(i)]!r}")
     grad = da.gradient()
+    ctx.ev("input_unchanged")
+    if datagen.modified(da, arr):
+        bad("input_unchanged", "data-modified", f"difference() / gradient() changed the variable they were called on: {np.asarray(da.values).ravel()[:4]} vs {arr.ravel()[:4]}")
+        return fails
     # computing a gradient is a read: the grid's distances must still be what they were
     ctx.ev("distances_unchanged_by_gradient")
     efd2 = np.asarray(g.edge_face_distances.values, float)
@@ -222,7 +229,7 @@ def run_case(case, ctx):
         if lead and not fails:
             ctx.ev("independent_leading_dims")
             idx = tuple(0 for _ in lead)
-            single = ux.UxDataArray(arr[idx], dims=["n_face"], uxgrid=g, name="v").gradient()
+            single = ux.UxDataArray(arr[idx].copy(), dims=["n_face"], uxgrid=g, name="v").gradient()
             if not np.allclose(np.asarray(single.values, float), got[idx], rtol=rtol, atol=1e-15):
                 bad("independent_leading_dims", "differs", "slice gradient differs from gradient of the slice")
         # normalised
